@@ -31,6 +31,7 @@ class Spec(object):
         self.stopped = None   # reason why checking stopped
         self.db_error = False # an operation of this session failed inside the database layer (flush / load): the transaction may hold garbage
         self.tainted = set()  # (owner, attribute) of collections from which this session removed items (remove / assign)
+        self.obj_flushed = False   # an obj.flush() saved objects since the last full flush: pending added / removed sets were not reset
         self.violations = []  # (check, detail)
         self.db_error_at_commit = False
 
@@ -42,7 +43,7 @@ class Spec(object):
 
     def new_session(self):
         self.by_py, self.py_of, self.keep = {}, {}, []
-        self.db_error = False; self.tainted = set()
+        self.db_error = False; self.tainted = set(); self.obj_flushed = False
 
     def sid(self, obj, ent):
         k = self.by_py.get(id(obj))
@@ -162,7 +163,8 @@ class Spec(object):
     def bad(self, check, detail):
         # In a session whose transaction was damaged by a failed flush / load every read can be wrong (orphan rows, reset pending sets, the
         # saved_objects assertion): one root cause with an unbounded family of symptoms, keyed by the root cause and a coarse class only.
-        if self.db_error and not check.endswith(('-by-unsaved-object', '-after-remove')):
+        if self.obj_flushed and check in ('c10-count', 'c10-isempty'): check += '-after-obj-flush'
+        if self.db_error and not check.endswith(('-by-unsaved-object', '-after-remove', '-after-obj-flush')):
             check = 'c10-read-assertion-after-db-error' if check == 'c10-read-assertion' else 'c10-read-after-db-error'
         self.violations.append((check, detail))
         self.stopped = check
@@ -197,6 +199,7 @@ class Spec(object):
             if k != 'rollback' and ok:
                 self.learn_pks()
                 self.committed = self.clone(self.cur)
+                self.obj_flushed = False      # commit flushed everything
             else:
                 self.cur = self.clone(self.committed)
             if k != 'commit' or not ok: self.new_session()
@@ -215,6 +218,8 @@ class Spec(object):
         if self.stopped: return
         self.pre_unsaved = set(x for x, o in self.cur.items() if o['pk'] is None)     # objects without a primary key when the op started
         self.learn_pks()
+        if k == 'flushobj': self.obj_flushed = True
+        if k == 'flush': self.obj_flushed = False
         if k in ('flush', 'flushobj'): return        # no logical effect
         self.step_checked(op, res, rn)
 
